@@ -167,6 +167,15 @@ func IsErrorReturn(p *core.Program, w *facts.Walker, fn *types.Func, ret *ast.Re
 	return false
 }
 
+// LastReturn: the return statement that ends a block (statements before it are allowed), or nil.
+func LastReturn(b *ast.BlockStmt) *ast.ReturnStmt {
+	if b == nil || len(b.List) == 0 {
+		return nil
+	}
+	ret, _ := b.List[len(b.List)-1].(*ast.ReturnStmt)
+	return ret
+}
+
 // StableResult renders a returned expression for a construct: a local that has a single definition from a call is
 // named after the callee ("result of F"), anything else is rendered by core.Stable. Renaming the local does not change
 // the text, and two locals of the same type with different origins stay apart.
